@@ -84,11 +84,12 @@ pub fn gen_case(t: &mut Tape) -> Case {
     let supertrait = t.chance(1, 4);
     let no_send = any_async && !use_async_trait && t.chance(1, 5);
     let n = t.range(1, 5);
+    let names = prog::member_names(t, n);
     let mut methods: Vec<Method> = vec![];
     for i in 0..n {
         let m = if i > 0 && t.chance(1, 2) {
             let mut c = methods[i - 1].clone();
-            c.name = format!("m{i}");
+            c.name = names[i].clone();
             c.tag = format!("M{i}");
             c
         } else {
@@ -105,7 +106,7 @@ pub fn gen_case(t: &mut Tape) -> Case {
                 }
             }
             let has_gen = params.iter().any(|p| p.vt == VT::Gen);
-            Method { name: format!("m{i}"), tag: format!("M{i}"), is_async: any_async && t.chance(2, 3), params, has_gen, uses_u: generic_trait && t.flip(), typed_receiver: t.chance(1, 8) }
+            Method { name: names[i].clone(), tag: format!("M{i}"), is_async: any_async && t.chance(2, 3), params, has_gen, uses_u: generic_trait && t.flip(), typed_receiver: t.chance(1, 8) }
         };
         methods.push(m);
     }
